@@ -50,9 +50,11 @@ Match(v, w) ==
                 /\ \A j \in 1..Len(w.v) :
                       \E i \in 1..n : v.v[2*i-1] = w.v[j][1] /\ Match(v.v[2*i], w.v[j][2])
 
+\* integers beyond the signed 64-bit range are outside the property's enumeration: a decoder may reject them
+InRange == \A i \in 1..Len(Values) : AllFit(Values[i])
 VerdictOK == /\ ~Doc.panic
-             /\ Doc.ok = Accepting
-             /\ (Accepting => MatchAll(Values, Doc.vals))
+             /\ (Accepting /\ ~InRange) \/ (Doc.ok = Accepting)
+             /\ (Doc.ok => Accepting /\ MatchAll(Values, Doc.vals))
 
 TInit == Init /\ l = 1 /\ pos = 0 /\ bad = <<>> /\ sp = <<0, 0>> /\ spans = <<>>
 
